@@ -68,8 +68,10 @@ def dec_band(sdec, delta):
 
 
 def crit_dec(src, ev, delta):
-    """open declination band around the source, clipped at the poles (exact float comparison)"""
-    lo, hi = dec_band(src[1], delta)
+    """declination within delta of the source's (open interval; the same float expressions as the
+    documented band edges dec -/+ delta, so the comparison is exact).  An event at a pole is inside
+    the band of a source whose band reaches the pole."""
+    lo, hi = src[1] - delta, src[1] + delta
     return (lo < ev[1] < hi), math.inf
 
 
@@ -185,7 +187,18 @@ def build_shg(srcs):
         _shg_cache['cfg'] = (cfg, fm, _B(cfg=cfg))
     cfg, fm, b = _shg_cache['cfg']
     sources = [PointLikeSource(ra=s[0], dec=s[1]) for s in srcs]
-    return SourceHypoGroupManager(SourceHypoGroup(sources=sources, fluxmodel=fm, detsigyield_builders=b))
+    # one, two or three source hypothesis groups (deterministic in the number of sources): the source
+    # index of the methods / the manager is the position in the concatenation of the groups
+    n = len(sources)
+    if n >= 3 and n % 2 == 1:
+        cuts = [1, 1 + (n - 1) // 2]
+    elif n >= 2 and n % 4 == 0:
+        cuts = [n // 2]
+    else:
+        cuts = []
+    parts = [sources[a:b_] for a, b_ in zip([0] + cuts, cuts + [n])]
+    return SourceHypoGroupManager([SourceHypoGroup(sources=part, fluxmodel=fm, detsigyield_builders=b)
+                                   for part in parts])
 
 
 def mk_events(evs):
@@ -241,6 +254,19 @@ def ints(a):
     return [int(x) for x in np.asarray(a).tolist()]
 
 
+FIELDS = ('ra', 'dec', 'ang_err', 'psi', 'time')
+
+
+def rows_equal(arr, ids, evs):
+    """every column of every stored row is the column value of the original row with that id"""
+    try:
+        return (len(arr) == len(ids)
+                and all(0 <= j < len(evs) and all(float(arr[f][b]) == evs[j][c] for c, f in enumerate(FIELDS))
+                        for b, j in enumerate(ids)))
+    except Exception:  # noqa: BLE001
+        return False
+
+
 def run_select(spec, srcs, evs, inc=None):
     """-> ['Ok', ids, pairs, orig] | ['Err', name]; also checks the call without ret_original_evt_idxs"""
     try:
@@ -256,11 +282,13 @@ def run_select(spec, srcs, evs, inc=None):
         res2 = [ints(sel2['id']), list(zip(ints(si2), ints(ei2)))]
         same = (res2 == [res[1], res[2]])
         # the selected rows carry the data of the original rows
-        rows_ok = all(float(sel['ra'][b]) == evs[j][0] and float(sel['dec'][b]) == evs[j][1]
-                      for b, j in enumerate(res[1]))
+        rows_ok = rows_equal(sel, res[1], evs)
         return res, same, rows_ok
     except Exception as ex:  # noqa: BLE001
         return ['Err', type(ex).__name__], True, True
+
+
+TDM_EXTRA = {}      # side observations of the last run_tdm: all columns, the stored index field, n_sources
 
 
 def run_tdm(spec, srcs, evs, sort):
@@ -271,8 +299,13 @@ def run_tdm(spec, srcs, evs, sort):
         tdm = TrialDataManager(index_field_name='time' if sort else None)
         tdm.initialize_trial(shg, None, mk_events(evs), evt_sel_method=meth)
         (si, ei) = tdm.src_evt_idxs
-        return ['Ok', ints(tdm.events['id']), list(zip(ints(si), ints(ei)))]
+        ids = ints(tdm.events['id'])
+        TDM_EXTRA['rows_ok'] = rows_equal(tdm.events, ids, evs)
+        TDM_EXTRA['times'] = [float(x) for x in tdm.events['time']]
+        TDM_EXTRA['n_sources'] = int(tdm.n_sources)
+        return ['Ok', ids, list(zip(ints(si), ints(ei)))]
     except Exception as ex:  # noqa: BLE001
+        TDM_EXTRA.clear()
         return ['Err', type(ex).__name__]
 
 
@@ -456,7 +489,7 @@ def check_select(ctx, spec, srcs, evs, impl, same, rows_ok, crit, case):
         ctx.violation(site, 'ret-flag-changes-result', 'result without ret_original_evt_idxs differs', case=case, impl=impl)
 
 
-def check_tdm(ctx, spec, srcs, evs, sort, impl, crit, case):
+def check_tdm(ctx, spec, srcs, evs, sort, impl, crit, case, extra=None):
     site = 'TrialDataManager.initialize_trial'
     ns, ne = len(srcs), len(evs)
     if impl[0] != 'Ok':
@@ -469,6 +502,16 @@ def check_tdm(ctx, spec, srcs, evs, sort, impl, crit, case):
         return
     if sort and any(evs[a][4] > evs[b][4] for a, b in zip(ids, ids[1:])):
         ctx.violation(site, 'not-sorted', 'events not sorted by the index field', case=case, impl=impl)
+    if extra is not None:
+        if not extra.get('rows_ok', True):
+            ctx.violation(site, 'wrong-event-rows', 'a column of the stored events differs from the original row '
+                          '(columns permuted differently)', case=case, impl=impl)
+        tm = extra.get('times', [])
+        if sort and any(a > b for a, b in zip(tm, tm[1:])):
+            ctx.violation(site, 'not-sorted', 'the stored index field column is not ascending', case=case, impl=impl)
+        if extra.get('n_sources', ns) != ns:
+            ctx.violation(site, 'wrong-n-sources', 'n_sources of the manager differs from the source manager',
+                          case=case, impl=extra.get('n_sources'))
     if not sort and ids != orig_x:
         ctx.violation(site, 'order-changed', 'events reordered without an index field', case=case, impl=impl)
     if any(not (0 <= k < ns and 0 <= b < len(ids)) for k, b in pairs):
@@ -511,6 +554,8 @@ def gen_sources(rng, ns):
             ra = TWO_PI - rng.choice([1e-9, 1e-4, 0.01])
         elif r < 0.25:
             ra = rng.choice([1e-9, 1e-4])
+        elif r < 0.31:
+            ra = rng.uniform(0, TWO_PI) + rng.choice([-1, 1, 2]) * TWO_PI     # unnormalised source RA
         else:
             ra = rng.uniform(0, TWO_PI)
         srcs.append((ra, dec))
@@ -534,6 +579,11 @@ def gen_event(rng, srcs, delta, regime):
     elif regime == 'wrap':
         dec = min(HALF_PI, max(-HALF_PI, s[1] + rng.uniform(-1, 1) * delta))
         ra = rng.choice([0.0, 1e-9, TWO_PI - 1e-9, TWO_PI - 1e-3, 1e-3, PI, s[0], (s[0] + PI) % TWO_PI, TWO_PI])
+    elif regime == 'unnorm':
+        # right ascension outside [0, 2 pi): the same direction given with extra whole turns, or far away
+        dec = min(HALF_PI, max(-HALF_PI, s[1] + rng.uniform(-1.2, 1.2) * delta))
+        w = min(PI, 1.3 * dra_half(s[1], delta))
+        ra = s[0] + rng.uniform(-w, w) + rng.choice([-2, -1, 1, 2, 3]) * TWO_PI
     else:
         dec = math.asin(rng.uniform(-1, 1))
         ra = rng.uniform(0, TWO_PI)
@@ -544,9 +594,9 @@ def gen_event(rng, srcs, delta, regime):
 
 def gen_events(rng, srcs, delta, ne, mix):
     evs = []
-    regs = ['edge', 'near', 'pole', 'wrap', 'far']
+    regs = ['edge', 'near', 'pole', 'wrap', 'far', 'unnorm']
     for _ in range(ne):
-        evs.append(gen_event(rng, srcs, delta, rng.choices(regs, weights=mix)[0]))
+        evs.append(gen_event(rng, srcs, delta, rng.choices(regs, weights=tuple(mix) + (1.2,))[0]))
     times = list(range(ne))
     rng.shuffle(times)
     for e, t in zip(evs, times):
@@ -600,6 +650,10 @@ def corpus_cases():
     evs = [[1.0, 0.25, 0.01, 0.05, 58003.0], [1.1, -0.25, 0.01, 0.9, 58001.0], [4.0, 0.21, 0.5, 3.0, 58002.0],
            [1.05, 0.9, 0.3, 0.7, 58000.0], [1.0, -0.31, 0.02, 0.5, 58004.0]]
     one = [(1.0, 0.2)]
+    unn = [[7.0, 0.0, 0.01, 0.3, 58001.0], [-6.0, 0.0, 0.01, 0.1, 58000.0], [0.45, 0.0, 0.5, 0.05, 58003.0],
+           [6.7, 0.0, 0.01, 0.02, 58002.0], [0.45 - 2 * TWO_PI, 0.01, 0.01, 0.05, 58004.0], [13.0, 0.0, 0.3, 0.4, 58005.0]]
+    pol = [[1.0, HALF_PI, 0.1, 0.1, 58002.0], [1.0, HALF_PI - 0.05, 0.1, 0.1, 58000.0], [1.0, -HALF_PI, 0.1, 0.1, 58001.0],
+           [4.0, HALF_PI - 0.2, 0.1, 0.1, 58003.0]]
     return [
         # 86ce939: band / box methods ignored the incoming table when chained (>= 2 sources)
         {'srcs': srcs2, 'evs': evs, 'spec': ['and', ['box', 0.2], ['dec', 1.0]], 'sort': True},
@@ -611,6 +665,14 @@ def corpus_cases():
         # afff0ae: initialize_trial with index field + selection (argsort [1,2,0]-like permutations)
         {'srcs': srcs2, 'evs': evs, 'spec': ['dec', 0.2], 'sort': True},
         {'srcs': srcs2, 'evs': evs, 'spec': ['angerr', 0.1, 0.02, 0.3], 'sort': True},
+        # f511812: SpatialBox selected events more than 2 pi away in (unnormalised) right ascension
+        {'srcs': [(0.4, 0.0)], 'evs': unn, 'spec': ['box', 0.1], 'sort': True},
+        {'srcs': [(0.4, 0.0), (0.4 + TWO_PI, 0.05)], 'evs': unn, 'spec': ['and', ['ra', 0.1], ['box', 0.1]], 'sort': False},
+        {'srcs': [(0.4 - TWO_PI, 0.0)], 'evs': unn, 'spec': ['and', ['box', 0.1], ['angerr', 0.1, 0.02, 0.3]], 'sort': True},
+        # a53f3be: an event exactly at a polar source was dropped by DecBand / SpatialBox
+        {'srcs': [(1.0, HALF_PI), (2.0, -HALF_PI)], 'evs': pol, 'spec': ['dec', 0.1], 'sort': True},
+        {'srcs': [(1.0, HALF_PI), (2.0, -HALF_PI)], 'evs': pol, 'spec': ['box', 0.1], 'sort': False},
+        {'srcs': [(1.0, HALF_PI - 0.05)], 'evs': pol, 'spec': ['and', ['dec', 0.1], ['ra', 0.1]], 'sort': True},
     ]
 
 
@@ -929,10 +991,50 @@ def history_tdm(ctx, rng, c, terms=None, checks=None):
                               case=dict(case, trial=i, sort=sort))
 
 
+def history_analysis(ctx, rng, c):
+    """Analysis.change_shg_mgr has to hand the new source manager to every selection method and every
+    trial data manager: afterwards a trial (as Analysis.initialize_trial runs it) equals a trial on new
+    objects built for the new sources"""
+    import types
+    from skyllh.core.analysis import Analysis
+    from skyllh.core.trialdata import TrialDataManager
+    srcs = [tuple(x) for x in c['srcs']]
+    evs = [list(e) for e in c['evs']]
+    spec = c['spec']
+    srcs2 = gen_sources(rng, 1 if has_kind(spec, 'psifunc') else rng.choice([n for n in (1, 2, 3, 4) if n != len(srcs)]))
+    if has_kind(spec, 'psifunc'):
+        srcs2 = [((srcs[0][0] + 0.5) % TWO_PI, -srcs[0][1])]
+    site = 'Analysis.change_shg_mgr[history]'
+    case = {'srcs': srcs, 'evs': evs, 'spec': spec, 'analysis': {'srcs2': srcs2}}
+    ctx.count('history_analysis')
+    shg1, shg2 = build_shg(srcs), build_shg(srcs2)
+    m = build_method(spec, shg1)
+    tdm, tdm0 = TrialDataManager(index_field_name='time'), TrialDataManager()
+    ana = types.SimpleNamespace(_event_selection_method_list=[m, None], _tdm_list=[tdm, tdm0], _pmm=None,
+                                _detsigyield_service=None, _src_detsigyield_weights_service=None,
+                                _bkg_generator=None, _sig_generator=None)
+    tdm.initialize_trial(shg1, None, mk_events(evs), evt_sel_method=m)
+    tdm0.initialize_trial(shg1, None, mk_events(evs), evt_sel_method=None)
+    Analysis.change_shg_mgr(ana, shg_mgr=shg2)
+    for (t, meth, sp, sort) in ((tdm, m, spec, True), (tdm0, None, None, False)):
+        try:
+            t.initialize_trial(shg_mgr=shg2, pmm=None, events=mk_events(evs), evt_sel_method=meth)
+            (si, ei) = t.src_evt_idxs
+            got = ['Ok', ints(t.events['id']), list(zip(ints(si), ints(ei)))]
+        except Exception as ex:  # noqa: BLE001
+            got = ['Err', type(ex).__name__]
+        want = run_tdm(sp, srcs2, evs, sort)
+        if got != want:
+            ctx.violation(site, 'trial-uses-old-sources', 'after Analysis.change_shg_mgr a trial differs from a trial on objects '
+                          'built for the new sources', case=case, impl=got, model=want,
+                          predicate='selection method and trial data manager follow the new source manager')
+
+
 def history_probes(ctx, rng, c, terms=None, checks=None):
     try:
         history_select(ctx, rng, c)
         history_tdm(ctx, rng, c, terms, checks)
+        history_analysis(ctx, rng, c)
     except Exception as ex:  # noqa: BLE001
         ctx.violation(site_of(c['spec']) + '[history]', 'probe-raises-' + type(ex).__name__,
                       f'a history probe raised: {ex}', case={'srcs': c['srcs'], 'evs': c['evs'], 'spec': c['spec']})
@@ -962,7 +1064,7 @@ def one_case(ctx, c, terms, checks, with_model=True):
     for sort in ([c.get('sort', False)] if not c.get('both') else [False, True]):
         ti = run_tdm(spec, srcs, evs, sort)
         case_t = dict(case, sort=sort, tdm=True)
-        check_tdm(ctx, spec, srcs, evs, sort, ti, crit, case_t)
+        check_tdm(ctx, spec, srcs, evs, sort, ti, crit, case_t, extra=dict(TDM_EXTRA))
         ctx.count('tdm:sort' if sort else 'tdm:nosort')
         if with_model:
             perm = ints(np.argsort(np.array([evs[j][4] for j in orig_x], dtype=np.float64)))
@@ -973,7 +1075,7 @@ def one_case(ctx, c, terms, checks, with_model=True):
             ti = run_tdm(None, srcs, evs, sort)
             allc = [[True] * ne for _ in range(ns)]
             case_t = dict(case, spec=None, sort=sort, tdm=True)
-            check_tdm(ctx, ['all'], srcs, evs, sort, ti, allc, case_t)
+            check_tdm(ctx, ['all'], srcs, evs, sort, ti, allc, case_t, extra=dict(TDM_EXTRA))
             ctx.count('tdm:no-method')
             if with_model:
                 perm = ints(np.argsort(np.array([e[4] for e in evs], dtype=np.float64)))
@@ -984,9 +1086,11 @@ def one_case(ctx, c, terms, checks, with_model=True):
 def malformed_case(ctx, rng, terms, checks):
     """hand-given incoming tables and illegal configurations: model vs implementation only"""
     ns = rng.choice([1, 2, 3])
-    c = gen_case(ctx, rng, ns=ns, ne=rng.choice([1, 3, 6]),
-                 spec=rng.choice([['all'], ['dec', 0.5], ['ra', 0.5], ['box', 0.5], ['angerr', 0.1, 0.02, 0.3],
-                                  ['and', ['dec', 1.0], ['angerr', 0.1, 0.02, 0.3]], ['and', ['all'], ['box', 1.0]]]))
+    specs = [['all'], ['dec', 0.5], ['ra', 0.5], ['box', 0.5], ['angerr', 0.1, 0.02, 0.3],
+             ['and', ['dec', 1.0], ['angerr', 0.1, 0.02, 0.3]], ['and', ['all'], ['box', 1.0]]]
+    if ns == 1:     # PsiFunc ignores a hand-given table (model: MPsi does too); only chains reach it in practice
+        specs += [['psifunc', 3.0], ['psifunc', 20.0], ['and', ['psifunc', 20.0], ['dec', 1.0]]]
+    c = gen_case(ctx, rng, ns=ns, ne=rng.choice([1, 3, 6]), spec=rng.choice(specs))
     if c is None:
         return
     srcs = [tuple(s) for s in c['srcs']]
